@@ -142,7 +142,8 @@ def run(ctx):
         e = ctx.rng.randint(0, n)
         v = float(d(st, epoch=e, n_epochs=n))
         rest = [m for j, m in enumerate(ms) if j != pos]
-        cases.append({'kind': 'inf-target', 'ms': rest, 'e': e, 'n': n, 'impl': v, 'grads': None})
+        cases.append({'kind': 'inf-target', 'ms': rest, 'e': e, 'n': n, 'impl': v, 'grads': None,
+                      'opt': [(m[0], m[1], None if j == pos else some(m[2])) for j, m in enumerate(ms)]})
         info = {'metrics(strength,cost,target)': ms, 'infinite_target_at': pos, 'epoch': e, 'n_epochs': n, 'impl': v}
         oracle('inf-target', math.isfinite(v) and v >= 0 and ((v == 0.0) == all(m[1] <= m[2] for m in rest)), 'duccio-zero-iff', info)
         # the penalty is the one of the regularizer that simply does not have that metric (each remaining metric with ITS strength)
@@ -197,7 +198,8 @@ def run(ctx):
     model_ok = built
     if built:
         try:
-            exprs = ['run_duccio %s %s %s' % (coq(c['ms']), coq(c['e']), coq(c['n'])) for c in cases]
+            exprs = [('run_duccio_opt %s %s %s' % (coq(c['opt']), coq(c['e']), coq(c['n']))) if 'opt' in c else
+                     ('run_duccio %s %s %s' % (coq(c['ms']), coq(c['e']), coq(c['n']))) for c in cases]
             vals = ctx.coq_eval_sharded('cases', ['Plinio.Model.Duccio'], '', exprs, shard=500)
             for c, (num, den) in zip(cases, vals):
                 mv = Fraction(num, den)
